@@ -232,7 +232,9 @@ func runC18(e *Engine, g G, o RunOpt) RunInfo {
 					}
 				}
 			}
-			e.Sleep(3*interval + time.Second)
+			// a keepalive whose ping failed at the very end is still inside Transport.Close
+			// (which waits for the peer's closing tag up to the connect timeout): not a leak
+			e.Sleep(3*interval + time.Duration(sc.Client.ConnectTimeout+1)*time.Second)
 			if sc.Block {
 				e.Sleep(3*interval + 2*time.Second)
 			}
@@ -334,7 +336,7 @@ func runC18(e *Engine, g G, o RunOpt) RunInfo {
 	if sc.End != "none" && !sc.Reconnect && !sc.Stalled {
 		for _, lt := range live {
 			if !lt.Harness && strings.Contains(lt.Stack, "xmpp.keepalive(") {
-				e.Violate("C18", "keepalive-goroutine-left", "keepalive goroutine still alive 3 intervals after the session ended (%s)", lt.Header)
+				e.Violate("C18", "keepalive-goroutine-left", "keepalive goroutine still alive 3 intervals and the close timeout after the session ended\n%s\n%s", lt.Header, clip(lt.Stack, 1200))
 			}
 		}
 	}
